@@ -199,6 +199,7 @@ def run_case(ctx, desc):
     except Exception as e:  # noqa: BLE001
         return ctx.violation(ctx.exc_signature(e, f"run.{desc['kind']}.{desc['trainer']}"), f"{type(e).__name__}: {str(e)[:200]}", desc)
     ref_final = ref.full_state()
+    reuse_k = 1 + desc["seed"] % max(T - 1, 1)
     for k in range(0, T + 1):
         rdesc = {**desc, "checkpoint_at": k}
         ctx.case(f"{tag}/{desc['target']}/k{'0' if k == 0 else 'T' if k == T else 'mid'}/delay{desc['delay']}/{'ip' if desc['inplace'] else 'oop'}{'/grown' if desc.get('grown') else ''}")
@@ -267,6 +268,29 @@ def run_case(ctx, desc):
                 return ctx.violation(f"restore.final_state_differs.{group}.{_leafclass(name)}",
                                      f"checkpoint at {k}: final '{name}' differs from the uninterrupted run", rdesc)
         ctx.count("final_states_compared")
+        if k == reuse_k:
+            # the same deserialised checkpoint object restores a SECOND instance after the first one has been run on: the
+            # checkpoint is a value, so what the first replica did since must not show in the second
+            ctx.count("checkpoints_loaded_a_second_time_after_the_first_replica_ran")
+            try:
+                dst2 = System(desc)
+                for j in range(nwarm):
+                    dst2.step(other[j], base + j)
+                dst2.restore(sds)
+                for t in range(k, T):
+                    outs = dst2.step(xs[t], t)
+                    for name, o in outs.items():
+                        if not _same(o, ref_outs[t][name]):
+                            return ctx.violation(f"restore.second_load_of_one_checkpoint.output_diverges.{desc['kind']}",
+                                                 f"checkpoint at {k} loaded a second time (after the first restored instance ran): "
+                                                 f"output '{name}' at step {t} differs from the uninterrupted run", rdesc)
+                fin2 = dst2.full_state()
+            except Exception as e:  # noqa: BLE001
+                return ctx.violation(ctx.exc_signature(e, f"second_load.{desc['kind']}.{desc['trainer']}"), f"{type(e).__name__}: {str(e)[:200]}", rdesc)
+            for name in ref_final:
+                if name not in fin2 or not _same(fin2[name], ref_final[name]):
+                    return ctx.violation(f"restore.second_load_of_one_checkpoint.final_state_differs.{_leafclass(name)}",
+                                         f"checkpoint at {k} loaded a second time: final '{name}' differs from the uninterrupted run", rdesc)
         if getattr(src, "annealed", 0):
             ctx.count("checkpoints_after_in_place_changes_of_trainer_buffers")
     # ---- a target in a different phase of the update schedule (an "arbitrary prior state"): the checkpoint holds two pending
